@@ -382,8 +382,42 @@ func genPlan(r *Rng, nw, nkeys, nstmts int, refreshP float64, txP float64) hplan
 			p.Steps = append(p.Steps, hstep{Op: "begin", W: wi})
 			inTx[wi] = r.Range(1, 4)
 		}
+		if inTx[wi] == 0 && i+2 < nstmts && r.Intn(14) == 0 {
+			// a column is assigned the value it already holds at a newer time (still the row's latest
+			// change), then a statement stamped in between arrives: it must lose
+			ts := []int{times[i], times[i+1], times[i+2]}
+			sort.Ints(ts)
+			key, col := 1+r.Intn(nkeys), hcols[r.Intn(len(hcols))]
+			v := fmt.Sprintf("t:same%d", i)
+			w2, w3 := wi, wi
+			if r.Bool() {
+				if o := r.Intn(nw); inTx[o] == 0 {
+					w2 = o
+				}
+				if o := r.Intn(nw); inTx[o] == 0 {
+					w3 = o
+				}
+			}
+			p.Steps = append(p.Steps,
+				hstep{Op: "stmt", W: wi, Stmt: HStmt{W: wi, Kind: "upd", Key: key, T: 10 + ts[0], Cols: map[string]string{col: v}}},
+				hstep{Op: "stmt", W: w2, Stmt: HStmt{W: w2, Kind: "upd", Key: key, T: 10 + ts[2], Cols: map[string]string{col: v}}})
+			if w3 != w2 && r.Bool() {
+				p.Steps = append(p.Steps, hstep{Op: "refresh", W: w3})
+			}
+			p.Steps = append(p.Steps, hstep{Op: "stmt", W: w3, Stmt: HStmt{W: w3, Kind: "upd", Key: key, T: 10 + ts[1], Cols: map[string]string{col: fmt.Sprintf("t:between%d", i)}}})
+			i += 2
+			continue
+		}
 		s := HStmt{W: wi, Key: 1 + r.Intn(nkeys), T: 10 + times[i]}
 		tag := fmt.Sprintf("t:w%ds%d", wi, i)
+		// mostly a value that no other statement writes; now and then one of two common values, so
+		// that a column is also assigned the value it already holds (still a write, with its time)
+		val := func(c string) string {
+			if r.Intn(6) == 0 {
+				return []string{"t:x", "t:y"}[r.Intn(2)]
+			}
+			return tag + c
+		}
 		x := r.Intn(100)
 		switch {
 		case x < 35:
@@ -391,7 +425,7 @@ func genPlan(r *Rng, nw, nkeys, nstmts int, refreshP float64, txP float64) hplan
 			s.Cols = map[string]string{}
 			for _, c := range hcols {
 				if r.Intn(4) != 0 {
-					s.Cols[c] = tag + c
+					s.Cols[c] = val(c)
 				}
 			}
 		case x < 75:
@@ -400,7 +434,7 @@ func genPlan(r *Rng, nw, nkeys, nstmts int, refreshP float64, txP float64) hplan
 			n := 0
 			for _, c := range hcols {
 				if r.Intn(2) == 0 {
-					s.Cols[c] = tag + c
+					s.Cols[c] = val(c)
 					n++
 				}
 			}
